@@ -34,13 +34,18 @@ struct Cfg20 {
     kind: char,
     depth: usize,
     gc: bool,
+    /// with a sibling: a second quotation of the whole source is made once and removed again; the
+    /// source alphabet is then reduced to appends and deletions of the first element (deeper, narrower)
+    #[serde(default)]
+    sibling: bool,
 }
 
 fn bounds(tier: Tier) -> Vec<Cfg20> {
-    let c = |kind, depth, gc| Cfg20 { kind, depth, gc };
+    let c = |kind, depth, gc| Cfg20 { kind, depth, gc, sibling: false };
+    let cs = |kind, depth, gc| Cfg20 { kind, depth, gc, sibling: true };
     match tier {
-        Tier::Quick => vec![c('a', 4, true), c('t', 4, true), c('m', 4, true)],
-        Tier::Thorough => vec![c('a', 5, true), c('t', 5, false), c('m', 6, true)],
+        Tier::Quick => vec![c('a', 4, true), c('t', 4, true), c('m', 4, true), cs('t', 6, true), cs('a', 6, true)],
+        Tier::Thorough => vec![c('a', 5, true), c('t', 5, false), c('m', 6, true), cs('t', 7, true), cs('a', 7, false)],
     }
 }
 
@@ -67,6 +72,8 @@ struct W20 {
     unlinked: HashSet<(u64, u32)>,
     /// sub-classified (known-pattern) findings: recorded, exploration continues behind them
     soft: Vec<(usize, String, String)>,
+    /// a second quotation of the whole source (key q2) was made and removed again
+    sibling_removed: bool,
 }
 
 fn src_root(kind: char) -> char {
@@ -151,7 +158,7 @@ impl W20 {
             RCfg { client: 1, gc: c.gc, utf16: false, cleanup: true },
             RCfg { client: 2, gc: c.gc, utf16: false, cleanup: true },
         ];
-        W20 { w: World::new(&cfgs), q: None, obs: vec![None, None], tag_id: HashMap::new(), edits_after_quote: 0, steps: 0, unlinked: HashSet::new(), soft: Vec::new() }
+        W20 { w: World::new(&cfgs), q: None, obs: vec![None, None], tag_id: HashMap::new(), edits_after_quote: 0, steps: 0, unlinked: HashSet::new(), soft: Vec::new(), sibling_removed: false }
     }
 
     fn learn_tags(&mut self, kind: char) {
@@ -240,7 +247,13 @@ impl W20 {
         let src_before: Vec<Node> = self.w.reps.iter().map(|r| r.dump().get(&watched).cloned().unwrap_or(Node::Undefined)).collect();
         let seq_before: Vec<Vec<SeqElem>> = self.w.reps.iter().map(|r| root_sequence(&r.store_dump(), &src_root(kind).to_string()).unwrap_or_default()).collect();
         // remember the boundary tags when quoting
-        if let Act::Local { r, op: Op::Quote { lo, hi, .. } } = a {
+        if let Act::Local { op: Op::MDel { k, .. }, .. } = a {
+            if k == "q2" {
+                self.sibling_removed = true;
+            }
+        }
+        if let Act::Local { r, op: Op::Quote { lo, hi, key, .. } } = a {
+          if key == "q" {
             let dump = self.w.reps[*r].dump();
             let tags = visible_tags(dump.get(&src_root(kind)).unwrap_or(&Node::Undefined));
             let from = match lo {
@@ -255,6 +268,7 @@ impl W20 {
             };
             let requested = if from <= to && to <= tags.len() { tags[from..to].to_vec() } else { Vec::new() };
             self.q = Some(Q { lo: lo.map(|(_, incl)| ((0, 0), incl)), hi: hi.map(|(_, incl)| ((0, 0), incl)), spec: format!("{:?}..{:?}", lo, hi), requested, resolved: false });
+          }
         }
         self.w.step(a).map_err(|e| {
             if e.starts_with("quote refused") || e.starts_with("link refused") {
@@ -272,7 +286,8 @@ impl W20 {
         }
         self.learn_tags(kind);
         // right after quoting: read the boundary ids back and check the author sees what it asked for
-        if let (Act::Local { r, op: Op::Quote { .. } }, Some(q)) = (a, self.q.as_mut()) {
+        if let (Act::Local { r, op: Op::Quote { key, .. } }, Some(q)) = (a, self.q.as_mut().filter(|_| matches!(a, Act::Local { op: Op::Quote { key, .. }, .. } if key == "q"))) {
+            let _ = key;
             if let Some(wk) = weak_at(&self.w.reps[*r], kind) {
                 let sid = wk.start_id().map(|i| (i.client.get(), i.clock));
                 let eid = wk.end_id().map(|i| (i.client.get(), i.clock));
@@ -556,6 +571,24 @@ fn enabled(c: &Cfg20, w: &W20, nlocal: usize) -> Vec<Act> {
             kind => {
                 let fam = if kind == 't' { Fam::Txt } else { Fam::Arr };
                 for op in gen_ops(fam, &st, k, 0) {
+                    if c.sibling {
+                        // narrow source alphabet: append at the end, delete the first element
+                        let keep = match &op {
+                            Op::TIns { i, .. } | Op::AIns { i, .. } => {
+                                let len = match st.get(&src_root(kind)) {
+                                    Some(Node::Array(a)) => a.len(),
+                                    Some(Node::Text(u)) => u.len(),
+                                    _ => 0,
+                                };
+                                *i == len
+                            }
+                            Op::TDel { i, .. } | Op::ADel { i, .. } => *i == 0,
+                            _ => false,
+                        };
+                        if !keep || r != 0 {
+                            continue;
+                        }
+                    }
                     out.push(Act::Local { r, op });
                 }
                 let quoted = w.q.is_some();
@@ -578,6 +611,14 @@ fn enabled(c: &Cfg20, w: &W20, nlocal: usize) -> Vec<Act> {
                 if let Some(Node::Map(m)) = st.get(&'m') {
                     if m.contains_key("q") {
                         out.push(Act::Local { r, op: Op::MDel { t: Tgt::root('m'), k: "q".into() } });
+                    }
+                    // a sibling: a second quotation of the whole source, made once and removed again
+                    if c.sibling && quoted && r == 0 && n > 0 {
+                        if m.contains_key("q2") {
+                            out.push(Act::Local { r, op: Op::MDel { t: Tgt::root('m'), k: "q2".into() } });
+                        } else if !w.sibling_removed && m.contains_key("q") {
+                            out.push(Act::Local { r, op: Op::Quote { t: Tgt::root('m'), src: src_root(kind), lo: None, hi: None, key: "q2".into() } });
+                        }
                     }
                 }
             }
@@ -605,9 +646,26 @@ fn dfs(ctx: &mut Ctx, c: &Cfg20, trace: &mut Vec<Act>, nlocal: usize, visited: &
         }
         return;
     }
+    // a removed sibling quotation must not matter: if this step shows a (known-pattern) finding that the
+    // same history WITHOUT the sibling's creation and removal does not show, it is not that known pattern
+    let sibling_ops = |a: &Act| matches!(a, Act::Local { op: Op::Quote { key, .. }, .. } if key == "q2") || matches!(a, Act::Local { op: Op::MDel { k, .. }, .. } if k == "q2");
+    let mut without: Option<Vec<String>> = None;
+    if w.sibling_removed && w.soft.iter().any(|(s, _, _)| *s == trace.len()) && !trace.last().map(sibling_ops).unwrap_or(true) {
+        let filtered: Vec<Act> = trace.iter().filter(|a| !sibling_ops(a)).cloned().collect();
+        let (w2, v2) = build(c, &filtered);
+        if v2.is_none() {
+            without = Some(w2.soft.iter().filter(|(s, _, _)| *s == filtered.len()).map(|(_, class, _)| class.split(':').next().unwrap_or("").to_string()).collect());
+        }
+    }
     for (step, class, msg) in &w.soft {
         if *step == trace.len() {
-            ctx.violation("quotation", class, msg.clone(), cj());
+            let head = class.split(':').next().unwrap_or("").to_string();
+            match &without {
+                Some(other) if !other.contains(&head) => {
+                    ctx.violation("quotation", &format!("{}:only-after-a-sibling-quotation-was-removed", head), format!("{} (the same history without the second quotation q2 and its removal shows no such problem)", msg), cj());
+                }
+                _ => ctx.violation("quotation", class, msg.clone(), cj()),
+            }
         }
     }
     ctx.sample(cj);
@@ -633,7 +691,7 @@ fn dfs(ctx: &mut Ctx, c: &Cfg20, trace: &mut Vec<Act>, nlocal: usize, visited: &
         }
     }
     // every delivery order of the final pool to a fresh replica
-    if (w.q.is_some() || c.kind == 'm') && w.w.pool.len() >= 2 && w.w.pool.len() <= 6 && pools.insert(w.w.pool_key()) {
+    if !c.sibling && (w.q.is_some() || c.kind == 'm') && w.w.pool.len() >= 2 && w.w.pool.len() <= 6 && pools.insert(w.w.pool_key()) {
         ctx.count("pools", 1);
         let pool = w.w.pool.clone();
         let gc = c.gc;
